@@ -42,6 +42,7 @@ ErrNone     == -30            \* NoneReturnedError
 ErrDeep     == -31            \* DeepReferenceError
 ErrName     == -32            \* NameError / AttributeError
 ErrType     == -33            \* TypeError (wrong kind of object, bad arity)
+ErrDeleted  == -34            \* DeletedObjectError (a reference to a deleted object was used)
 IsErr(v)    == v <= -10
 NoneContrib == 7              \* what a None callee adds to its caller's sum
 Fail        == <<>>          \* "no result" for operators whose results are non-empty sequences
@@ -58,6 +59,7 @@ Drop(f, ks)    == [x \in DOMAIN f \ ks |-> f[x]]
 
 ModelObj   == <<"mo", <<>>, <<>>, "">>
 NoObj      == <<"no", <<>>, <<>>, "">>
+DeadObj    == <<"dead", <<>>, <<>>, "">>     \* handle of a deleted object
 IntObj(n)  == <<"int", n, <<>>, "">>
 SpObj(p, st) == <<"sp", p, st, "">>
 CeObj(p, st, c) == <<"ce", p, st, c>>
@@ -79,13 +81,17 @@ Merge(seqs, acc) ==
                         IF ne[j][1] = c THEN Tail(ne[j]) ELSE ne[j]],
                     Append(acc, c))   \* (MFail propagates: it is returned as is)
 
-RECURSIVE C3(_, _)
-C3(D, s) ==
+RECURSIVE C3R(_, _, _)
+\* path = spaces on the current chain of the recursion (a cycle yields Fail)
+C3R(D, s, path) ==
+    IF s \in path \/ s \notin DOMAIN D.bases THEN Fail
+    ELSE
     LET bs   == D.bases[s]
-        sub  == [i \in 1..Len(bs) |-> C3(D, bs[i])] IN
+        sub  == [i \in 1..Len(bs) |-> C3R(D, bs[i], path \cup {s})] IN
     IF \E i \in 1..Len(bs) : sub[i] = Fail THEN Fail
     ELSE LET m == Merge(sub \o <<bs>>, <<>>) IN
          IF m = MFail THEN Fail ELSE <<s>> \o m
+C3(D, s) == C3R(D, s, {})
 
 \* ancestors through the base relation (for acyclicity)
 RECURSIVE BaseClosure(_, _, _)
@@ -111,6 +117,17 @@ Children(D, s) == {t \in D.sp : Len(t) = Len(s) + 1 /\ SubSeq(t, 1, Len(s)) = s}
 ChildNames(D, s) == {Last(t) : t \in Children(D, s)}
 IsPrefix(p, q) == Len(p) <= Len(q) /\ SubSeq(q, 1, Len(p)) = p
 Subtree(D, s)  == {t \in D.sp : IsPrefix(s, t)}
+
+\* does an object value still denote an existing (static) object?
+ObjAlive(D, v) ==
+    CASE v[1] = "sp" -> (v[3] = <<>> => v[2] \in D.sp)
+      [] v[1] = "ce" -> (v[3] = <<>> => (v[2] \in D.sp /\ v[4] \in ENames(D, v[2], "cells")))
+      [] OTHER -> TRUE
+Normal(D, v) == IF ObjAlive(D, v) THEN v ELSE DeadObj
+\* after a structural edit, references to objects that no longer exist hold dead handles
+KillDangling(D) ==
+    [D EXCEPT !.refs  = [s \in DOMAIN @ |-> [n \in DOMAIN @[s] |-> [@[s][n] EXCEPT !.v = Normal(D, @)]]],
+              !.grefs = [n \in DOMAIN @ |-> [@[n] EXCEPT !.v = Normal(D, @)]]]
 
 -----------------------------------------------------------------------------
 (* Relative re-binding of an object-valued reference that space `sub`      *)
@@ -149,12 +166,12 @@ ERefVal(D, s, n) ==
     LET b  == Definer(D, s, "refs", n)
         r  == D.refs[b][n]
         v  == r.v IN
-    IF b = s \/ v[1] \in {"int"} \/ r.mode = "absolute" THEN v
+    IF b = s \/ v[1] \in {"int", "dead"} \/ r.mode = "absolute" THEN v
     ELSE LET full == IF v[1] = "ce" THEN Append(v[2], v[4]) ELSE v[2]
              rt   == RelTarget(D, s, b, full) IN
          IF rt = Fail THEN v
-         ELSE IF v[1] = "ce" THEN CeObj(Front(rt), <<>>, Last(rt))
-              ELSE SpObj(rt, <<>>)
+         ELSE IF v[1] = "ce" THEN Normal(D, CeObj(Front(rt), <<>>, Last(rt)))
+              ELSE Normal(D, SpObj(rt, <<>>))
 
 -----------------------------------------------------------------------------
 (* Contexts: static and dynamic spaces.                                    *)
@@ -191,7 +208,7 @@ RootOf(ctx) ==                 \* <<static path of the root's base, steps up to 
     <<ctx[1], SubSeq(steps, 1, fi)>>
 
 DynRebind(D, ctx, r, v) ==
-    IF v[1] = "int" \/ r.mode = "absolute" \/ Len(ctx[2]) = 0 THEN v
+    IF v[1] \in {"int", "dead"} \/ r.mode = "absolute" \/ Len(ctx[2]) = 0 THEN v
     ELSE LET root == RootOf(ctx)
              rb   == root[1]                \* static base path of the root item
              full == v[2] IN
@@ -226,6 +243,7 @@ Attr(D, obj, name) ==
          THEN IF <<name>> \in D.sp THEN SpObj(<<name>>, <<>>)
               ELSE IF name \in DOMAIN D.grefs THEN D.grefs[name].v
               ELSE NoObj
+    ELSE IF obj[1] = "dead" THEN DeadObj
     ELSE NoObj
 
 RECURSIVE WalkFrom(_, _, _, _)
@@ -271,6 +289,7 @@ AllowNone(D, ctx, c) ==
 CallErr(D, ctx, key, op) ==
     LET tgt == Resolve(D, ctx, op[2]) IN
     IF tgt = NoObj THEN ErrName
+    ELSE IF tgt = DeadObj THEN ErrDeleted
     ELSE IF tgt[1] # "ce" THEN ErrType
     ELSE LET crec == CellRecOf(D, <<tgt[2], tgt[3]>>, tgt[4])
              vals == [i \in 1..Len(op[3]) |-> ArgVal(op[3][i], key)] IN
@@ -290,7 +309,8 @@ EvOp(D, ctx, key, op) ==
       [] op[1] = "none"  -> RetNoneMark
       [] op[1] = "read"  ->
             LET o == Resolve(D, ctx, op[2]) IN
-            IF o = NoObj THEN ErrName ELSE IF o[1] = "int" THEN o[2] ELSE ErrType
+            IF o = NoObj THEN ErrName ELSE IF o = DeadObj THEN ErrDeleted
+            ELSE IF o[1] = "int" THEN o[2] ELSE ErrType
       [] op[1] = "call"  ->
             IF Skipped(op[3], key) THEN 0
             ELSE LET ce == CallErr(D, ctx, key, op) IN
